@@ -4,6 +4,19 @@ from . import orch_common
 
 def main(tier, seed):
     chk = orch_common.run("C04", tier, seed, technique="DSE of the real main.py/scalar_function.py/bfgsmats.py with contract stubs for the kernels and uninterpreted user callables; z3 per path; scenario replay on the real API")
+    # The evaluation bound nfev <= max(maxfun, n0) + 1 rests on one premise about the line search, which the run-level
+    # harness stubs: called with max_iter = min(maxls, maxfun - nfev) it makes at most max_iter evaluations.  That premise
+    # is decided here on the real line_search (the C11 harness, budget obligation only).
+    from symx import driver
+    from . import c11 as C11
+    T11 = "harness.c11:path"
+    jobs = [(T11, dict(n=1, T=t, iter=it, pattern=pat, cut=True)) for t in (1, 2) for it in (0, 1) for pat in (("ff",), ("fi",))]
+    for ex in driver.explore_many(jobs, time_limit=600, timeout_ms=30000, max_paths=60000):
+        ex.candidates = [c for c in ex.candidates if c["name"] == "evaluations_within_budget"]
+        chk.add(ex)
+        if ex.candidates:
+            C11.confirm(chk, ex)
+    chk.stubs.append("line_search: its evaluation budget (at most max_iter evaluations) is not assumed but decided in this check on the real line_search (C11 harness, T <= 2)")
     chk.sample(dict(config=dict(maxiter="0..1", maxfun="1..3", maxls="1..2", ftol="symbolic >= 0", gtol="symbolic >= 0", ftarget="none|float|callable", callback="returns a symbolic Boolean"),
                     obligations="C04.* (see harness/orch_single.py)"))
     return chk.finish()
